@@ -46,8 +46,8 @@ SITES = {
         ["Load:enqueuePos", "Load:seq", "Store:seq", "CAS:enqueuePos", "Load:enqueuePos"],
     "actor/non_blocking_bounded_mailbox.go:NonBlockingBoundedMailbox.Dequeue":
         ["Load:dequeuePos", "Load:seq", "Store:seq", "CAS:dequeuePos", "Load:dequeuePos"],
-    "actor/unbounded_fair_mailbox.go:UnboundedFairMailbox.Enqueue": ["MapLoad:senders", "Add:length", "CAS:active", "Add:pending"],
-    "actor/unbounded_fair_mailbox.go:UnboundedFairMailbox.Dequeue": ["Store:active", "Load:length", "Load:pending", "CAS:active", "Add:length", "Add:pending"],
+    "actor/unbounded_fair_mailbox.go:UnboundedFairMailbox.Enqueue": ["MapLoad:senders", "Add:length", "Add:pending", "CAS:active"],
+    "actor/unbounded_fair_mailbox.go:UnboundedFairMailbox.Dequeue": ["Store:active", "CAS:active", "Load:length", "Load:pending", "Add:length", "Add:pending"],
     "actor/unbounded_fair_mailbox.go:UnboundedFairMailbox.finalizeSender": ["Store:pending", "Store:active", "Load:pending", "CAS:active"],
     "actor/unbounded_fair_mailbox.go:activeSenders.enqueue": ["Store:value", "Store:next", "Swap:tail", "Store:next"],
     "actor/unbounded_fair_mailbox.go:activeSenders.dequeue": ["Load:head", "Load:next", "Store:head", "Load:value", "Store:next", "Store:value"],
